@@ -272,7 +272,7 @@ def main(chk):
     def one(k):
         rnd = env.rng('c06', k)
         m, exports, inits, shape, tsize, gtypes = build(rnd, k)
-        b = m.encode()
+        b = m.encode(wasm.rot_enc(k))
         plan = e2e.Plan(m, import_inits=inits)
         script, kinds = script_for(rnd, plan, m, exports, shape, tsize, gtypes)
         d = env.subdir('c06-%d' % k)
